@@ -47,3 +47,12 @@ package cmds
 //@        (rDepsOptions.transitive ==> (forall a model.BuildNode :: {reach(graph, target, a)} reach(graph, target, a) ==> inNodes(arg1, a)) && (forall i int :: {arg1[i]} 0 <= i && i < len(arg1) ==> reach(graph, target, arg1[i])) && noDup(arg1)) &&
 //@        (!rDepsOptions.transitive ==> arg1 == graph.outEdges[labelOf(target)])
 //@   before_call PrintSortedLabels#1 [prints_the_filtered_list] arg1 == filteredRDeps
+
+// C10: "unlock removes the path unconditionally": the build command may only release a lock it holds. The deferred unlock
+// closure is created where the lock is held (proved at the defer statement); between that point and its execution this
+// process does not release the lock (assumed stable).
+//@ func RunBuild$1() ()
+//@   captured_requires [lock_is_held] locker != nil && locker.lockFilePath == lockPath && has(alive, me) && has(fsIsFile, lockPath) && lockCreator == me
+
+//@ func RunBuild(ctx, logger, targetPatterns, graph, isTest, streamLogs, loadOutputsMode) ()
+//@   requires [graph] graph != nil && graphWF(graph)
